@@ -25,6 +25,9 @@ type posReader struct {
 	pos int
 	// chunk > 0 limits each Read to that many bytes (exercises short reads)
 	chunk int
+	// eofWithData: the final bytes are returned TOGETHER with io.EOF, as io.Reader allows
+	// (compress/flate, chunked HTTP bodies, iotest.DataErrReader do this)
+	eofWithData bool
 }
 
 func (r *posReader) Read(p []byte) (int, error) {
@@ -37,6 +40,9 @@ func (r *posReader) Read(p []byte) (int, error) {
 	}
 	n = copy(p[:n], r.b[r.pos:])
 	r.pos += n
+	if r.eofWithData && r.pos >= len(r.b) && n > 0 {
+		return n, io.EOF
+	}
 	return n, nil
 }
 
@@ -119,13 +125,16 @@ type CallCase struct {
 
 // run decodes once from the reader kind the case asks for and reports the position reached.
 func runCall(c CallCase) (outcome, int) {
-	if c.Chunk < 0 {
+	if c.Chunk == -1 {
 		// a bytes.Reader: implements Len, ReadByte, WriteTo, Seek (what in-memory callers pass)
 		br := bytes.NewReader(c.Input)
 		got := call(cbor.NewDecoder(br), c.Method)
 		return got, len(c.Input) - br.Len()
 	}
 	rd := &posReader{b: c.Input, chunk: c.Chunk}
+	if c.Chunk == -2 || c.Chunk == -3 { // plain reader that hands out its last bytes together with io.EOF (whole / 1-byte reads)
+		rd = &posReader{b: c.Input, chunk: -2 - c.Chunk, eofWithData: true}
+	}
 	got := call(cbor.NewDecoder(rd), c.Method)
 	return got, rd.pos
 }
@@ -269,8 +278,8 @@ func TestExhaustiveHeads(t *testing.T) {
 			}
 			for _, in := range inputs {
 				for _, m := range methods {
-					for _, chunk := range []int{0, 1, -1} {
-						if chunk == 1 && len(in) > 300 {
+					for _, chunk := range []int{0, 1, -1, -2, -3} {
+						if (chunk == 1 || chunk == -3) && len(in) > 300 {
 							continue
 						}
 						n++
@@ -323,7 +332,7 @@ var rtProp = vh.Define("C12", "roundtrip", func(c RoundTripCase, r *vh.R) {
 		r.Failf("encode-error", "encoding %+v failed: %v", c.Kind, err)
 		return
 	}
-	rd := &posReader{b: buf.Bytes()}
+	rd := &posReader{b: buf.Bytes(), eofWithData: len(buf.Bytes())%2 == 1}
 	got := call(cbor.NewDecoder(rd), c.Kind)
 	if !got.ok {
 		r.Failf("roundtrip-reject", "decoder rejects encoder output %x", trunc(buf.Bytes()))
@@ -446,11 +455,14 @@ var streamProp = vh.Define("C12", "stream", func(c StreamCase, r *vh.R) {
 	b := c.bytes()
 	var src io.Reader
 	pos := func() int { return 0 }
-	if c.Chunk < 0 {
+	if c.Chunk == -1 {
 		br := bytes.NewReader(b)
 		src, pos = br, func() int { return len(b) - br.Len() }
 	} else {
 		pr := &posReader{b: b, chunk: c.Chunk}
+		if c.Chunk < -1 {
+			pr = &posReader{b: b, chunk: -2 - c.Chunk, eofWithData: true}
+		}
 		src, pos = pr, func() int { return pr.pos }
 	}
 	dec := cbor.NewDecoder(src)
@@ -580,7 +592,7 @@ func TestPropStream(t *testing.T) {
 		if rapid.IntRange(0, 3).Draw(t, "extra") == 0 {
 			c.Calls = append(c.Calls, rapid.SampledFrom(methods).Draw(t, "extracall"))
 		}
-		c.Chunk = rapid.SampledFrom([]int{0, 0, 1, 3, -1, -1}).Draw(t, "chunk")
+		c.Chunk = rapid.SampledFrom([]int{0, 0, 1, 3, -1, -1, -2, -3, -5}).Draw(t, "chunk")
 		if rapid.IntRange(0, 3).Draw(t, "docut") == 0 {
 			c.Cut = rapid.IntRange(1, 12).Draw(t, "cut")
 		}
